@@ -33,7 +33,10 @@ where
         move |serial, x: Material<Item>| match x {
           Material::Next(x) => sctl_next.sink_next(x),
           Material::Error(x) => sctl_next.sink_error(x),
-          Material::Complete => sctl_next.sink_complete(&serial),
+          Material::Complete => {
+            sctl_next.upstream_abort_observe(&serial);
+            sctl_next.sink_complete(&serial)
+          }
         },
         move |_, e| {
           sctl_error.sink_error(e);
